@@ -177,7 +177,7 @@ func c10Build(feats []string) map[string]any {
 	pathItem["post"] = op
 	doc["paths"] = map[string]any{"/items/{id}": pathItem,
 		"/bare/{id}": map[string]any{"summary": "no operations", "parameters": []any{map[string]any{"name": "id", "in": "path", "required": true, "schema": intS()}}},
-		"/plain": map[string]any{"get": map[string]any{"responses": map[string]any{"200": map[string]any{"description": "ok"}}}}}
+		"/plain":     map[string]any{"get": map[string]any{"responses": map[string]any{"200": map[string]any{"description": "ok"}}}}}
 	return doc
 }
 
